@@ -64,6 +64,7 @@ var probes = map[string]bool{
 	"connPool.doRPC":                true,
 	"storage.removeGTE":             true,
 	"Raft.setCommitIndex":           true,
+	"follower.onTimeout":            true,
 	"connPool.returnConn":           true,
 	"replication.onAppendEntriesResp": true,
 }
